@@ -63,9 +63,69 @@ func intInfo(t types.Type) (w int, signed bool, ok bool) {
 
 func pow2(n int) *big.Int { return new(big.Int).Lsh(big.NewInt(1), uint(n)) }
 
+type ivl struct{ lo, hi *big.Int }
+
 type Arith struct {
-	mode   Mode
-	needUF map[string][2]interface{} // uninterpreted bit operators used (int mode)
+	mode       Mode
+	needUF     map[string][2]interface{} // uninterpreted bit operators used (int mode)
+	iv         map[string]ivl            // conservative value intervals of int-mode terms
+	wrapSigned bool                      // contract flag wraps_signed: signed arithmetic wraps (hash-like code)
+	// ovf is set by BinOp when a signed result may leave its type's range: the
+	// condition "result is in range". Code emits it as a safety obligation (signed
+	// overflow is treated as a defect, like an out-of-range index); contracts read
+	// signed arithmetic as mathematical.
+	ovf string
+}
+
+func typeRange(w int, signed bool) ivl {
+	if signed {
+		return ivl{new(big.Int).Neg(pow2(w - 1)), new(big.Int).Sub(pow2(w-1), big.NewInt(1))}
+	}
+	return ivl{big.NewInt(0), new(big.Int).Sub(pow2(w), big.NewInt(1))}
+}
+
+func (a *Arith) setIv(t string, lo, hi *big.Int) {
+	if a.iv == nil {
+		a.iv = map[string]ivl{}
+	}
+	a.iv[t] = ivl{lo, hi}
+}
+
+func (a *Arith) setTypeIv(t string, w int, signed bool) {
+	r := typeRange(w, signed)
+	a.setIv(t, r.lo, r.hi)
+}
+
+func (a *Arith) getIv(t string) (ivl, bool) {
+	if c, ok := isIntLiteral(t); ok {
+		return ivl{c, c}, true
+	}
+	v, ok := a.iv[t]
+	return v, ok
+}
+
+func (v ivl) within(r ivl) bool { return v.lo.Cmp(r.lo) >= 0 && v.hi.Cmp(r.hi) <= 0 }
+
+func ivlOp(op token.Token, x, y ivl) (ivl, bool) {
+	switch op {
+	case token.ADD:
+		return ivl{new(big.Int).Add(x.lo, y.lo), new(big.Int).Add(x.hi, y.hi)}, true
+	case token.SUB:
+		return ivl{new(big.Int).Sub(x.lo, y.hi), new(big.Int).Sub(x.hi, y.lo)}, true
+	case token.MUL:
+		c := []*big.Int{new(big.Int).Mul(x.lo, y.lo), new(big.Int).Mul(x.lo, y.hi), new(big.Int).Mul(x.hi, y.lo), new(big.Int).Mul(x.hi, y.hi)}
+		lo, hi := c[0], c[0]
+		for _, v := range c[1:] {
+			if v.Cmp(lo) < 0 {
+				lo = v
+			}
+			if v.Cmp(hi) > 0 {
+				hi = v
+			}
+		}
+		return ivl{lo, hi}, true
+	}
+	return ivl{}, false
 }
 
 func (a *Arith) intSort(w int) string {
@@ -195,34 +255,95 @@ func (a *Arith) BinOp(op token.Token, x, y string, w int, signed bool) (string, 
 		}
 		return "", fmt.Errorf("unsupported bv binop %v", op)
 	}
+	a.ovf = ""
 	switch op {
-	case token.ADD:
-		return a.wrap(fmt.Sprintf("(+ %s %s)", x, y), w, signed), nil
-	case token.SUB:
-		return a.wrap(fmt.Sprintf("(- %s %s)", x, y), w, signed), nil
-	case token.MUL:
-		return a.wrap(fmt.Sprintf("(* %s %s)", x, y), w, signed), nil
+	case token.ADD, token.SUB, token.MUL:
+		sym := map[token.Token]string{token.ADD: "+", token.SUB: "-", token.MUL: "*"}[op]
+		raw := fmt.Sprintf("(%s %s %s)", sym, x, y)
+		xi, okx := a.getIv(x)
+		yi, oky := a.getIv(y)
+		if okx && oky {
+			if ri, ok := ivlOp(op, xi, yi); ok && ri.within(typeRange(w, signed)) {
+				a.setIv(raw, ri.lo, ri.hi)
+				return raw, nil // cannot leave the range of its type: no reduction needed
+			}
+		}
+		if signed && !a.wrapSigned {
+			// exact value; the caller obliges "no signed overflow" (code) or reads it
+			// mathematically (contracts)
+			a.ovf = a.InRange(raw, w, signed)
+			if okx && oky {
+				if ri, ok := ivlOp(op, xi, yi); ok {
+					a.setIv(raw, ri.lo, ri.hi)
+				}
+			}
+			return raw, nil
+		}
+		r := a.wrap(raw, w, signed)
+		a.setTypeIv(r, w, signed)
+		return r, nil
 	case token.QUO:
+		var r string
 		if !signed {
-			return fmt.Sprintf("(div %s %s)", x, y), nil
+			r = fmt.Sprintf("(div %s %s)", x, y)
+		} else {
+			r = a.tdiv(x, y) // MinInt / -1 is the only overflow; reported via ovf
+			if c, ok := isIntLiteral(y); !ok || c.Cmp(big.NewInt(-1)) == 0 {
+				if !ok {
+					a.ovf = a.InRange(r, w, signed)
+				}
+			}
 		}
-		return a.wrap(a.tdiv(x, y), w, signed), nil
+		if xi, ok := a.getIv(x); ok {
+			if c, okc := isIntLiteral(y); okc && c.Sign() > 0 {
+				lo := new(big.Int).Quo(xi.lo, c)
+				hi := new(big.Int).Quo(xi.hi, c)
+				if xi.lo.Sign() < 0 && !signed {
+					lo = new(big.Int).Div(xi.lo, c)
+				}
+				a.setIv(r, lo, hi)
+			} else if xi.lo.Sign() >= 0 {
+				a.setIv(r, big.NewInt(0), xi.hi)
+			}
+		}
+		return r, nil
 	case token.REM:
+		var r string
 		if !signed {
-			return fmt.Sprintf("(mod %s %s)", x, y), nil
+			r = fmt.Sprintf("(mod %s %s)", x, y)
+		} else {
+			// a - b*trunc(a/b)
+			r = fmt.Sprintf("(- %s (* %s %s))", x, y, a.tdiv(x, y))
 		}
-		// a - b*trunc(a/b)
-		return fmt.Sprintf("(- %s (* %s %s))", x, y, a.tdiv(x, y)), nil
+		if c, okc := isIntLiteral(y); okc && c.Sign() > 0 {
+			m := new(big.Int).Sub(c, big.NewInt(1))
+			if xi, ok := a.getIv(x); ok && xi.lo.Sign() >= 0 {
+				a.setIv(r, big.NewInt(0), m)
+			} else {
+				a.setIv(r, new(big.Int).Neg(m), m)
+			}
+		}
+		return r, nil
 	case token.AND:
 		// x & (2^k-1) == x mod 2^k for unsigned or non-negative
 		if c, ok := isIntLiteral(y); ok && !signed {
 			if k := lowMaskBits(c); k >= 0 {
-				return fmt.Sprintf("(mod %s %s)", x, pow2(k).String()), nil
+				if xi, okx := a.getIv(x); okx && xi.lo.Sign() >= 0 && xi.hi.Cmp(c) <= 0 {
+					return x, nil
+				}
+				r := fmt.Sprintf("(mod %s %s)", x, pow2(k).String())
+				a.setIv(r, big.NewInt(0), c)
+				return r, nil
 			}
 		}
 		if c, ok := isIntLiteral(x); ok && !signed {
 			if k := lowMaskBits(c); k >= 0 {
-				return fmt.Sprintf("(mod %s %s)", y, pow2(k).String()), nil
+				if yi, oky := a.getIv(y); oky && yi.lo.Sign() >= 0 && yi.hi.Cmp(c) <= 0 {
+					return y, nil
+				}
+				r := fmt.Sprintf("(mod %s %s)", y, pow2(k).String())
+				a.setIv(r, big.NewInt(0), c)
+				return r, nil
 			}
 		}
 	}
@@ -321,9 +442,23 @@ func (a *Arith) Shift(op token.Token, x, cnt string, w int, signed bool, cw int,
 	}
 	switch op {
 	case token.SHL:
-		return a.wrap(fmt.Sprintf("(* %s %s)", x, pow2(k).String()), w, signed), nil
+		raw := fmt.Sprintf("(* %s %s)", x, pow2(k).String())
+		if xi, ok := a.getIv(x); ok {
+			ri := ivl{new(big.Int).Mul(xi.lo, pow2(k)), new(big.Int).Mul(xi.hi, pow2(k))}
+			if ri.within(typeRange(w, signed)) {
+				a.setIv(raw, ri.lo, ri.hi)
+				return raw, nil
+			}
+		}
+		r := a.wrap(raw, w, signed)
+		a.setTypeIv(r, w, signed)
+		return r, nil
 	case token.SHR:
-		return fmt.Sprintf("(div %s %s)", x, pow2(k).String()), nil // floor = arithmetic shift
+		r := fmt.Sprintf("(div %s %s)", x, pow2(k).String()) // floor = arithmetic shift
+		if xi, ok := a.getIv(x); ok {
+			a.setIv(r, new(big.Int).Div(xi.lo, pow2(k)), new(big.Int).Div(xi.hi, pow2(k)))
+		}
+		return r, nil
 	}
 	return "", fmt.Errorf("bad shift op")
 }
@@ -409,7 +544,12 @@ func (a *Arith) Convert(x string, fw int, fs bool, tw int, ts bool) string {
 	if c, ok := isIntLiteral(x); ok {
 		return a.Const(c, tw, ts)
 	}
-	return a.wrap(x, tw, ts)
+	if xi, ok := a.getIv(x); ok && xi.within(typeRange(tw, ts)) {
+		return x
+	}
+	r := a.wrap(x, tw, ts)
+	a.setTypeIv(r, tw, ts)
+	return r
 }
 
 // ToMathInt gives the mathematical integer value of x (for spec-level Int).
